@@ -352,6 +352,7 @@ static int xmit_gt(sess_t *s, const char *field, gt_t dst, const gt_t src, int p
 		else if (!strcmp(f->kind, "v_rand")) gt_rand(t);
 		else if (!strcmp(f->kind, "v_inv")) gt_inv(t, t);
 		else if (!strcmp(f->kind, "v_sqr")) gt_sqr(t, t);
+		else if (!strcmp(f->kind, "v_negfp")) fp12_neg(t, t);		/* times the element of order 2: outside the order-r subgroup */
 	}
 	size_t l = gt_size_bin(t, pack);
 	gt_write_bin(wire, l, t, pack);
@@ -735,7 +736,10 @@ static int sch_phpe(sess_t *s) {
 	}
 	if (s->phase == k + 1) {
 		if (s->flag[0] > 0) {
-			int rc = cp_phpe_dec(s->b[21], s->b[20], ph_prv);
+			int rc;
+			/* opt dup: decrypt in place (plaintext and ciphertext the same integer) */
+			if (s->opt[2]) { bn_copy(s->b[21], s->b[20]); rc = cp_phpe_dec(s->b[21], s->b[21], ph_prv); }
+			else rc = cp_phpe_dec(s->b[21], s->b[20], ph_prv);
 			log_rc(s, "dec", rc);
 			if (rc == RLC_OK) log_out_bn(s, "sum", s->b[21]);
 		}
